@@ -248,20 +248,22 @@ func subName(st types.Type, i int) string {
 	return "sub_" + typeKey(st) + "_" + s.Field(i).Name()
 }
 
+// Heap entries for slice elements, escaping locals and maps are keyed by the Go
+// element / map type: Go's type system rules out aliasing between them.
 func elemKey(elem types.Type) (string, Sort) {
 	es := sortOf(elem)
-	return "Elem_" + sortName(elem), ArrSort(SInt, ArrSort(SInt, es))
+	return "Elem_" + typeKey(elem) + refMark(elem), ArrSort(SInt, ArrSort(SInt, es))
 }
 
 func boxKey(elem types.Type) (string, Sort) {
 	es := sortOf(elem)
-	return "Box_" + sortName(elem), ArrSort(SInt, es)
+	return "Box_" + typeKey(elem) + refMark(elem), ArrSort(SInt, es)
 }
 
 func mapKeys(mt *types.Map) (dom, val string, domS, valS Sort) {
 	ks, vs := sortOf(mt.Key()), sortOf(mt.Elem())
-	sfx := sanitize(string(ks)) + "_" + sortName(mt.Elem())
-	return "MapDom_" + sfx, "MapVal_" + sfx, ArrSort(SInt, ArrSort(ks, SBool)), ArrSort(SInt, ArrSort(ks, vs))
+	sfx := typeKey(mt.Key()) + "_" + typeKey(mt.Elem())
+	return "MapDom_" + sfx, "MapVal_" + sfx + refMark(mt.Elem()), ArrSort(SInt, ArrSort(ks, SBool)), ArrSort(SInt, ArrSort(ks, vs))
 }
 
 func zeroTerm(s Sort) Term {
